@@ -780,6 +780,12 @@ class _Gen:
             args = self.gen_fields(fn, rng.randrange(0, 4), "args")
             for a in args:
                 a["name"] = a["name"].lower().replace("_", "") + "a"   # Go parameter names are lower-cased by the generator
+            if args and rng.random() < 0.3:
+                # an argument named like an identifier of the generated method itself, a Go keyword or a predeclared name,
+                # in lower case and capitalised (the generator renames the Go parameter; the wire name stays)
+                a = rng.choice(args)
+                a["name"] = rng.choice(["err", "Err", "r", "R", "f", "F", "fctx", "Fctx", "nil", "Nil", "result", "Result", "args",
+                                        "Args", "ret", "Ret", "type", "Type", "func", "range", "Range", "len", "true", "iota"])
             ret = None if (oneway or rng.random() < 0.25) else self.rand_type(fn)
             if not self.feat["service_typedef_foreign"]:
                 # a service file imports only the includes its signatures name directly (known finding of C02)
